@@ -13,6 +13,31 @@ pub fn in_known_hang_class(case: &LinCase, truth: &Verdict) -> bool {
         && has_free_var(case)
 }
 
+/// Characterises the two instance classes on which the microlp dependency is known to misbehave
+/// (see known_findings.json). The suffix is only attached to the answers those defects produce, so
+/// any other wrong answer on the same instances, and the same answers elsewhere, stay unknown.
+pub fn microlp_class(case: &LinCase, truth: &Verdict, w: Which, ans: &Ans) -> &'static str {
+    if !matches!(w, Which::Milp | Which::Auto | Which::RealMicro) {
+        return "";
+    }
+    let node_unbounded = matches!(ans, Ans::Other(m) if m.contains("bounded B&B node reported unbounded"));
+    match truth {
+        Verdict::Optimal { value, .. }
+            if (matches!(ans, Ans::Unbounded | Ans::Hang) || node_unbounded)
+                && has_free_var(case)
+                && optimal_face_unbounded(case, value) =>
+        {
+            ":unbounded-optimal-face+free-var"
+        }
+        Verdict::Unbounded
+            if (matches!(ans, Ans::Hang) || node_unbounded) && in_known_hang_class(case, truth) =>
+        {
+            ":mixed-integer+unbounded+free-var"
+        }
+        _ => "",
+    }
+}
+
 pub fn has_free_var(case: &LinCase) -> bool {
     case.vars.iter().any(|v| matches!(v.1, Dom::Real(None, None)))
 }
@@ -263,7 +288,7 @@ impl Prop for C05 {
             match (&ans, &truth) {
                 (Ans::Rejected(_), _) => continue,
                 (Ans::Hang, t) => {
-                    let class = if in_known_hang_class(case, t) { ":mixed-integer+unbounded+free-var" } else { "" };
+                    let class = microlp_class(case, t, w, &ans);
                     fails.push((
                         format!("{}:Hang-vs-{}{}", w.name(), verdict_name(t), class),
                         format!("{} did not return within {}s; exact verdict {}", w.name(), crate::props::solvers::hang_seconds(), verdict_name(t)),
@@ -272,8 +297,9 @@ impl Prop for C05 {
                 }
                 (Ans::Other(msg), _) => {
                     if w.simplex_based() {
+                        let class = microlp_class(case, &truth, w, &ans);
                         fails.push((
-                            format!("{}:Other-vs-{}", w.name(), verdict_name(&truth)),
+                            format!("{}:Other-vs-{}{}", w.name(), verdict_name(&truth), class),
                             format!("{} returned {msg}; exact verdict {}", w.name(), verdict_name(&truth)),
                         ));
                     }
@@ -295,14 +321,7 @@ impl Prop for C05 {
                         Ans::Ok(s) => format!("Ok(value {})", s.value),
                         _ => got.to_string(),
                     };
-                    let mut sig = format!("{}:{}-vs-{}", w.name(), got, verdict_name(t));
-                    if let (Ans::Unbounded, Verdict::Optimal { value, .. }) = (a, t) {
-                        // characterise the instance: the only known way to get this answer is an
-                        // optimal face that is itself unbounded along a free variable
-                        if has_free_var(case) && optimal_face_unbounded(case, value) {
-                            sig.push_str(":unbounded-optimal-face+free-var");
-                        }
-                    }
+                    let sig = format!("{}:{}-vs-{}{}", w.name(), got, verdict_name(t), microlp_class(case, t, w, a));
                     fails.push((
                         sig,
                         format!("{} answered {what}; exact verdict {}", w.name(), verdict_name(t)),
